@@ -454,6 +454,174 @@ func init() {
 					return false
 				}
 				ord := &ordinal{}
+				// definitions of the lisp-integer locals: a bound may be CLAMPED instead of refused
+				// (`k := n.Int; if k > len(xs) { k = len(xs) }`, `k = min(k, len(xs))`), and the test may be
+				// written on the value the local was read from (`if n.Int < 0 { return … }; k := n.Int`)
+				type ldef struct {
+					at  ast.Node
+					rhs ast.Expr // nil: not a plain one-to-one assignment
+				}
+				localDefs := map[types.Object][]ldef{}
+				ast.Inspect(body, func(n ast.Node) bool {
+					switch x := n.(type) {
+					case *ast.FuncLit:
+						return false
+					case *ast.AssignStmt:
+						for i, l := range x.Lhs {
+							o := identObj(info, l)
+							if o == nil || !lispInt[o] {
+								continue
+							}
+							if len(x.Lhs) == len(x.Rhs) && (x.Tok == token.ASSIGN || x.Tok == token.DEFINE) {
+								localDefs[o] = append(localDefs[o], ldef{x, x.Rhs[i]})
+							} else {
+								localDefs[o] = append(localDefs[o], ldef{x, nil})
+							}
+						}
+					case *ast.IncDecStmt:
+						if o := identObj(info, x.X); o != nil && lispInt[o] {
+							localDefs[o] = append(localDefs[o], ldef{x, nil})
+						}
+					}
+					return true
+				})
+				lispLocal := func(name string) types.Object {
+					if name == "" {
+						return nil
+					}
+					for o := range lispInt {
+						if o.Name() == name {
+							return o
+						}
+					}
+					return nil
+				}
+				stripConv := func(e ast.Expr) ast.Expr {
+					e = ast.Unparen(e)
+					if ce, ok := e.(*ast.CallExpr); ok && len(ce.Args) == 1 {
+						if tv, ok := info.Types[ce.Fun]; ok && tv.IsType() {
+							return ast.Unparen(ce.Args[0])
+						}
+					}
+					return e
+				}
+				builtinCall := func(e ast.Expr, name string) []ast.Expr {
+					ce, ok := ast.Unparen(e).(*ast.CallExpr)
+					if !ok {
+						return nil
+					}
+					id, ok := ast.Unparen(ce.Fun).(*ast.Ident)
+					if !ok || id.Name != name {
+						return nil
+					}
+					if _, isB := info.Uses[id].(*types.Builtin); !isB {
+						return nil
+					}
+					return ce.Args
+				}
+				// defFacts: for a fact about a lisp-integer LOCAL, the cut edges and same-block
+				// definitions that establish it by construction.  Sound only when every definition of
+				// the local is either the read of one and the same lisp integer (then a test of that
+				// spelling counts) or establishes the fact itself.
+				defFacts := func(f cmpFact) (cuts []cfgEdge, defs []ast.Node) {
+					var o types.Object
+					upper := false
+					if lo := lispLocal(f.lo); lo != nil && (f.hiIsLen || lispLocal(f.hi) == nil) {
+						o, upper = lo, true
+					} else if f.lo == "" {
+						o = lispLocal(f.hi)
+					}
+					if o == nil || len(localDefs[o]) == 0 {
+						return nil, nil
+					}
+					var sat func(r ast.Expr) bool
+					sat = func(r ast.Expr) bool {
+						r = stripConv(r)
+						if upper {
+							if f.strict {
+								return false
+							}
+							if f.hiIsLen && isLenLike(info, body, r) {
+								return true
+							}
+							if !f.hiIsLen && types.ExprString(r) == f.hi {
+								return true
+							}
+							for _, a := range builtinCall(r, "min") {
+								if sat(a) {
+									return true
+								}
+							}
+							return false
+						}
+						if v, ok := intConst(info, r); ok {
+							return v > 0 || (v == 0 && !f.strict)
+						}
+						if !f.strict && isLenLike(info, body, r) {
+							return true
+						}
+						for _, a := range builtinCall(r, "max") {
+							if sat(a) {
+								return true
+							}
+						}
+						return false
+					}
+					alias := ""
+					for _, d := range localDefs[o] {
+						if d.rhs == nil {
+							return nil, nil
+						}
+						if sat(d.rhs) {
+							continue
+						}
+						r := stripConv(d.rhs)
+						if FieldOfSelector(info, r) == intFld {
+							sp := types.ExprString(r)
+							if alias != "" && alias != sp {
+								return nil, nil
+							}
+							alias = sp
+							continue
+						}
+						return nil, nil
+					}
+					for _, d := range localDefs[o] {
+						if !sat(d.rhs) {
+							continue
+						}
+						dl, ok := fc.Locate(d.at)
+						if !ok {
+							continue
+						}
+						// the definition must be the last word on the local in its block
+						last := true
+						for _, d2 := range localDefs[o] {
+							if d2.at != d.at && d2.at.Pos() > d.at.Pos() {
+								if l2, ok := fc.Locate(d2.at); ok && l2.B == dl.B {
+									last = false
+								}
+							}
+						}
+						if !last {
+							continue
+						}
+						defs = append(defs, d.at)
+						for k := range dl.B.Succs {
+							cuts = append(cuts, cfgEdge{dl.B, k})
+						}
+					}
+					if alias != "" {
+						af := f
+						if upper {
+							af.lo = alias
+						} else {
+							af.hi = alias
+						}
+						cuts = append(cuts, factEdges(fc, info, body, af, nil)...)
+					}
+					return cuts, defs
+				}
 				// term: the spelling of a bound that comes straight from a lisp integer, or ""
 				term := func(e ast.Expr) string {
 					if e == nil {
@@ -615,7 +783,17 @@ func init() {
 							}
 						} else {
 							cut := factEdges(fc, info, body, f, nil)
+							dcut, ddefs := defFacts(f)
+							cut = append(cut, dcut...)
 							holds = len(cut) > 0 && !fc.reachableAvoiding(loc.B, cut)
+							if !holds {
+								// clamped in the very block of the use: `k = min(k, len(xs)); … xs[:k]`
+								for _, dn := range ddefs {
+									if dl, ok := fc.Locate(dn); ok && dl.B == loc.B && dn.End() <= site.Pos() {
+										holds = true
+									}
+								}
+							}
 						}
 						if !holds {
 							lo := f.lo
